@@ -17,6 +17,13 @@ def _gen(ck, tier, wd, seed, nprob):
     if res.rc != 0 or res.violated or not rows:
         raise vlib.Infra("MC_Glam failed: %s\n%s" % (res.violated, res.out[-2000:]))
     ck.add_tlc("MC_Glam", res)
+    if ck.pid == "C09":
+        # the array arithmetic that assembles the normal equations (box, rho = slicemultiply, axis doubling, flattening) as a
+        # transcription, checked against B'WB and B'Wz of the Kronecker-product definition
+        r2 = vlib.run_tlc("MC_GlamAlgo", "MC_GlamAlgo_quick.cfg" if tier == "quick" else "MC_GlamAlgo.cfg", tag="mcglamalgo", timeout=1500)
+        if r2.rc != 0 or r2.violated:
+            raise vlib.Infra("MC_GlamAlgo did not model-check cleanly: %s\n%s" % (r2.violated, r2.out[-2000:]))
+        ck.add_tlc("MC_GlamAlgo (GLAM assembly, %s)" % ("1..2-D" if tier == "quick" else "1..3-D"), r2)
     axes = [r for r in rows if r["kind"] == "axis"]
     probs = [r for r in rows if r["kind"] == "problem"]
     rnd = random.Random(seed)
